@@ -172,9 +172,19 @@ def gen_graph(rng, gname, max_nodes=8, shapes=None, allow_cond=True):
             nodes.append(_node(post))
             cout = post
         if shape == "multi_cond":
-            nodes2, cin2, cout2 = _cond_block(rng, _Namer("m"), 0, [6], blocks=blocks)
-            _find(nodes, cout).setdefault("children", []).append(cin2)
-            nodes += nodes2
+            # conditionals in sequence: each further block hangs below the previous block's join (or the node after it);
+            # sometimes a plain node sits between two blocks, sometimes the later block is itself nested
+            for extra, prefix in enumerate(("m", "k")[:rng.choice([1, 1, 2])]):
+                nm = _Namer(prefix)
+                nodes2, cin2, cout2 = _cond_block(rng, nm, 1 if rng.random() < 0.25 else 0, [6], blocks=blocks)
+                _find(nodes, cout).setdefault("children", []).append(cin2)
+                nodes += nodes2
+                cout = cout2
+                if rng.random() < 0.4:
+                    mid = nm()
+                    _find(nodes, cout)["children"] = [mid]
+                    nodes.append(_node(mid))
+                    cout = mid
     return shape, nodes, blocks
 
 
